@@ -363,7 +363,8 @@ def fill_query_params(query, params):
     def params_replace(node, **kwargs):
         if isinstance(node, ast.Parameter):
             value = params.pop(0)
-            return ast.Constant(value)
+            # the value stands where the placeholder stood: same output column name
+            return ast.Constant(value, alias=node.alias)
 
     # put parameters into query
     query_traversal(query, params_replace)
